@@ -13,4 +13,6 @@ with check.Lock(True):
 print("translator failures:", fails)
 PY
 cd coq
-timeout 3000 make -j16 --no-print-directory 2>&1 | tail -5
+# -k: a file that does not build (e.g. because /repo changed under a regenerated fact) must not keep the others from building;
+# every check rebuilds and reports what it needs.
+timeout 3000 make -k -j16 --no-print-directory 2>&1 | tail -5 || true
